@@ -52,8 +52,14 @@ func (t *tmpl) tbs() []byte {
 
 func (t tmpl) with(exts [][]byte) *tmpl { t.exts = exts; return &t }
 
-// cert assembles and signs a certificate around a TBS.
-func cert(tbs []byte, signer *pki.Key) []byte {
+// cert assembles a certificate around a TBS. ECDSA / Ed25519 issuers always
+// sign for real; an RSA issuer signs for real only when asked to (1.5 ms each),
+// otherwise the signature value is a fixed 256-byte pattern: no function under
+// test consults a certificate signature.
+func cert(tbs []byte, signer *pki.Key, real bool) []byte {
+	if signer.Kind == "rsa2048" && !real {
+		return pki.Assemble(tbs, signer.SigAlgDER(), bytesPat(256, 0x42))
+	}
 	return pki.Assemble(tbs, signer.SigAlgDER(), signer.SignTBS(tbs))
 }
 
@@ -165,7 +171,7 @@ func newIssuer(kind string, nameIdx int, root *pki.Cert) *issuer {
 	rootID := root.T.Key.KeyHash()
 	rk := root.T.Key
 	is.caDER = cert(caTBS(1, rk.SigAlgDER(), root.T.Subject.DER(), is.caName, is.caKey,
-		pki.ExtBasicConstraints(true, true), pki.ExtKeyUsage(0x06, 1), pki.ExtSKI(is.caKeyID), pki.ExtAKI(rootID[:20])), rk)
+		pki.ExtBasicConstraints(true, true), pki.ExtKeyUsage(0x06, 1), pki.ExtSKI(is.caKeyID), pki.ExtAKI(rootID[:20])), rk, true)
 	is.preAKI[preWithAKI] = pki.ExtAKI(is.caKeyID).Value
 	is.preAKI[preFullAKI] = der.Seq(der.ImplicitPrim(0, is.caKeyID),
 		der.ImplicitCons(1, der.Explicit(4, root.T.Subject.DER())), der.ImplicitPrim(2, []byte{0x10, 0x01}))
@@ -174,8 +180,10 @@ func newIssuer(kind string, nameIdx int, root *pki.Cert) *issuer {
 		if is.preAKI[v] != nil {
 			exts = append(exts, pki.Ext{OID: pki.OIDAKI, Value: is.preAKI[v]})
 		}
-		exts = append(exts, pki.ExtEKU(pki.OIDEKUCT))
-		is.preDER[v] = cert(caTBS(byte(0x20+v), is.caKey.SigAlgDER(), is.caName, is.preName, is.preKey, exts...), is.caKey)
+		// the CT EKU stands alone, last, or first among the key purposes
+		exts = append(exts, [nPre]pki.Ext{pki.ExtEKU(pki.OIDEKUCT), pki.ExtEKU(pki.OIDEKUServerAuth, pki.OIDEKUCT),
+			pki.ExtEKU(pki.OIDEKUCT, pki.OIDEKUClientAuth)}[v])
+		is.preDER[v] = cert(caTBS(byte(0x20+v), is.caKey.SigAlgDER(), is.caName, is.preName, is.preKey, exts...), is.caKey, true)
 	}
 	return is
 }
@@ -215,10 +223,11 @@ func neighbours() []nb {
 		// thorough tier
 		{"ku-crit", pki.ExtKeyUsage(0x80, 7).DER()},
 		{"big-300", pki.ExtUnknown(3, false, der.OctetString(bytesPat(300, 3))).DER()},
-		{"oid-poison.1", ext(append(append([]int{}, pki.OIDPoison...), 1), false, der.Null())},         // target OID + one arc
-		{"oid-2.4", ext(pki.OIDPoison[:len(pki.OIDPoison)-1], false, der.Null())},                       // proper prefix of both target OIDs
-		{"oid-2.4.5", ext([]int{1, 3, 6, 1, 4, 1, 11129, 2, 4, 5}, false, der.OctetString([]byte{0, 0})), // sibling arc (OCSP SCT list)
-		},
+		{"oid-poison.1", ext(append(append([]int{}, pki.OIDPoison...), 1), false, der.Null())}, // target OID + one arc
+		{"oid-sctlist.1", ext(append(append([]int{}, pki.OIDSCTList...), 1), false, der.OctetString([]byte{0, 0}))},
+		{"oid-2.4", ext(pki.OIDPoison[:len(pki.OIDPoison)-1], false, der.Null())},                         // proper prefix of both target OIDs
+		{"oid-2.4.5", ext([]int{1, 3, 6, 1, 4, 1, 11129, 2, 4, 5}, false, der.OctetString([]byte{0, 0}))}, // sibling arc (OCSP SCT list)
+
 	}
 }
 
@@ -275,11 +284,24 @@ func selections(n, k int) [][]int {
 
 // layouts: every selection of kmin..kmax neighbours x every target position.
 func layouts(n, kmin, kmax int) []layout {
+	idx := make([]int, n)
+	for i := range idx {
+		idx[i] = i
+	}
+	return layoutsOver(idx, kmin, kmax)
+}
+
+// layoutsOver: the same over the sub-alphabet given by its indices.
+func layoutsOver(idx []int, kmin, kmax int) []layout {
 	var out []layout
 	for k := kmin; k <= kmax; k++ {
-		for _, s := range selections(n, k) {
+		for _, s := range selections(len(idx), k) {
+			m := make([]int, len(s))
+			for i, x := range s {
+				m[i] = idx[x]
+			}
 			for p := 0; p <= k; p++ {
-				out = append(out, layout{s, p})
+				out = append(out, layout{m, p})
 			}
 		}
 	}
@@ -362,10 +384,10 @@ type uidV struct {
 }
 
 func uids(th bool) []uidV {
-	u := []uidV{{"none", nil, nil}, {"issuerUID", uniqueID(1, bytesPat(5, 0xa1), 0), nil}}
+	u := []uidV{{"none", nil, nil}, {"issuerUID", uniqueID(1, bytesPat(5, 0xa1), 0), nil},
+		{"issuerUID-3unused+subjectUID", uniqueID(1, bytesPat(3, 0xff), 3), uniqueID(2, bytesPat(4, 0x0f), 0)}}
 	if th {
-		u = append(u, uidV{"issuerUID-3unused+subjectUID", uniqueID(1, bytesPat(3, 0xff), 3), uniqueID(2, bytesPat(4, 0x0f), 0)},
-			uidV{"subjectUID-only", nil, uniqueID(2, bytesPat(16, 0x33), 7)})
+		u = append(u, uidV{"subjectUID-only", nil, uniqueID(2, bytesPat(16, 0x33), 7)}, uidV{"issuerUID-empty", uniqueID(1, nil, 0), nil})
 	}
 	return u
 }
